@@ -194,7 +194,7 @@ def replay_string_literal(desc, expect_panic=False, as_pattern=False):
     d_ = tempfile.mkdtemp(prefix='vf-c11-')
     try:
         prog = 'fn main() -> unit { string_println("%s") }\n' % src_lit
-        if as_pattern: prog = 'fn f(s: string) -> int32 { match s { "%s" => 1, _ => 2 } }\nfn main() -> unit { () }\n' % src_lit
+        if as_pattern: prog = 'fn f(s: string) -> int32 { match s { "%s" => 1, _ => 2 } }\nfn main() -> unit { string_println(int32_to_string(f("q"))) }\n' % src_lit
         open(os.path.join(d_, 'main.gom'), 'w').write(prog)
         out = subprocess.run([build.compiler_bin(), 'run', '--dump-go', os.path.join(d_, 'main.gom')], capture_output=True, text=True, timeout=60)
     finally: shutil.rmtree(d_, ignore_errors=True)
